@@ -62,8 +62,8 @@ def parseTypes (ts : List String) : TypeEnv :=
 
 def parseCallOpt (ts : List String) : Opt :=
   match ts with
-  | "conv" :: fs => .convFunc (fs.map (fun f => some (natOf f)))
-  | "convfunc" :: fs => .convFunc (fs.map (fun f => some (natOf f)))
+  | "conv" :: fs => .convFunc (fs.map (fun f => if f = "nil" then none else some (natOf f)))
+  | "convfunc" :: fs => .convFunc (fs.map (fun f => if f = "nil" then none else some (natOf f)))
   | ["gen", "fail"] => .gen 1
   | "gen" :: "rule" :: k :: _ => .gen (natOf k + 2)
   | ["gen", "nil"] => .gen 0
@@ -202,6 +202,16 @@ def buildOracle (evs : List Ev) : List OrcItem × List (Vtx × List Vtx × List 
        | _, _ => pair rest none acc)
     | _ :: rest => pair rest pending acc
   (fin o, pair evs none [])
+
+/-- executions numbered per function in order of appearance (a traced call that follows an untraced one on the
+same objects starts its counters where that one stopped) -/
+def renumberExecs (evs : List Ev) : List Ev :=
+  (evs.foldl (fun (acc : List Ev × List (Nat × Nat)) e =>
+    match e with
+    | .exec fid _ args res =>
+      let k := ((acc.2.find? (fun p => p.1 == fid)).map (·.2)).getD 0
+      (acc.1 ++ [.exec fid k args res], (acc.2.filter (fun p => p.1 != fid)) ++ [(fid, k + 1)])
+    | _ => (acc.1 ++ [e], acc.2)) ([], [])).1
 
 def execsOf (evs : List Ev) : List ExecEv :=
   evs.filterMap (fun e => match e with
@@ -563,7 +573,8 @@ def runCall (fl : Flags) (b : Block) (conv : Bool := false) : Res :=
   | some m, _ => { conform := some s!"model_rejects_{noSpace m}", propNA := true }
   | _, none => { conform := some "no_target", propNA := true }
   | none, some target =>
-  let runsG := splitRunsWith ["cv", "gi"] b.lines
+  let runsG0 := splitRunsWith ["cv", "gi"] b.lines
+  let runsG := if (kv b.head "burn").getD "false" == "true" then runsG0.map (fun r => (renumberExecs r.1, r.2)) else runsG0
   let runsX := runsG.map (fun r => (r.1, r.2.filter (fun l => l.head? = some "cv")))
   let runs := runsX.map (fun r => r.1)
   match sc.builder with
@@ -729,7 +740,13 @@ def runCall (fl : Flags) (b : Block) (conv : Bool := false) : Res :=
          | some m => s!"FAIL:redefined_function_differs_from_the_original_called_with_the_extra_values:{noSpace m}"
          | none => "ok")
     else "na"
-  { conform := conform, propNA := true, props := agg ++ [("C05", c05), ("C07", c07), ("C08", c08), ("C10", c10)],
+  -- C17 on the redefined function: a successful call reports no error (also after an earlier failed call)
+  let c17 := if fam = "redefcall" then
+      (match runs.find? (fun r => (resOf r).head? == some "err") , outs.find? (fun o => match o.1.outcome with | .ok _ => true | _ => false) with
+       | some r, some _ => s!"FAIL:redefined_function_reports_{noSpace (showImplRes (resOf r))}_although_the_call_succeeds"
+       | _, _ => "ok")
+    else "na"
+  { conform := conform, propNA := true, props := agg ++ [("C05", c05), ("C07", c07), ("C08", c08), ("C10", c10), ("C17", c17)],
     stats := [s!"outcome={firstOutcome}", s!"execs={nexec}", s!"convs={fx.convs.length}", s!"depth={depth}",
               s!"class={if fx.exactAll then "exact" else if !fx.underiv.isEmpty then "underiv" else "deriv"}",
               s!"runs={runs.length}", genStat, premStat] }
